@@ -25,6 +25,7 @@ package cache_test
 //                  leaves none of the named keys on any node.
 
 import (
+	"context"
 	"database/sql"
 	"encoding/json"
 	"fmt"
@@ -68,6 +69,7 @@ type hOp struct {
 	During bool     `json:"du,omitempty"` // write/delrow: a cached read of the row inside the exec callback, before the DB changes
 	NoIdx  bool     `json:"ni,omitempty"` // write that keeps the index value: do not name the index key
 	In     int      `json:"in,omitempty"` // which of the case's cache instances performs the operation
+	Cx     string   `json:"cx,omitempty"` // ctx form of the call: "" non-Ctx API, bg Background, live (cancelled at the end of the case), cancel (cancelled right after the call returned), dl (deadline 400 ms: gone before a retry is due)
 	GF     bool     `json:"gf,omitempty"` // conc: all readers start together while GETs are slow and then fail
 	Pay    int      `json:"py,omitempty"` // write: which payload (large integers, floats, strings needing escapes) the row carries
 	Keys   []string `json:"ks,omitempty"` // delcache/setcache: "p<id>" / "i<idx>"
@@ -214,6 +216,9 @@ type hRun struct {
 	maxActive int
 	lat       time.Duration
 
+	ctx     context.Context // ctx of the running operation (nil: the non-Ctx API is used)
+	cancels []func()        // contexts that live until the end of the case
+	opLimit int64           // real-time limit of the running operation, ns
 	opStart int64 // real clock at the start of the running operation
 	stalled bool  // some operation took more than 2 s of real time
 
@@ -233,9 +238,38 @@ func (r *hRun) failf(format string, a ...any) {
 }
 
 func (r *hRun) stall() {
-	if cache.C06RealNow()-r.opStart > 2e9 {
+	if cache.C06RealNow()-r.opStart > r.opLimit {
 		r.stalled = true
 	}
+}
+
+// withCtx selects the ctx form of the operation; the returned function is
+// called right after the library call returned.
+func (r *hRun) withCtx(kind string, write bool) (after func()) {
+	r.ctx, r.opLimit, after = nil, 2e9, func() {}
+	switch kind {
+	case "bg":
+		r.ctx = context.Background()
+	case "live":
+		ctx, cancel := context.WithCancel(context.Background())
+		r.ctx, r.cancels = ctx, append(r.cancels, cancel)
+	case "dl":
+		if write {
+			// the deadline also bounds the client's socket waits, in REAL time:
+			// a call that needed more than a quarter of it is not judged
+			ctx, cancel := context.WithTimeout(context.Background(), 400*time.Millisecond)
+			r.ctx, r.cancels, r.opLimit = ctx, append(r.cancels, cancel), 1e8
+			break
+		}
+		fallthrough
+	case "cancel":
+		ctx, cancel := context.WithCancel(context.Background())
+		r.ctx, after = ctx, cancel
+	}
+	if kind != "" {
+		r.classes["ctx-"+kind] = true
+	}
+	return after
 }
 
 func ceilDiv(a, b int) int { return (a + b - 1) / b }
@@ -309,12 +343,23 @@ func (r *hRun) indexQuery(idx int, v any) (any, error) {
 
 func (r *hRun) queryRow(id int) (hRow, error) {
 	var row hRow
+	if ctx := r.ctx; ctx != nil {
+		return row, r.ccs[r.cur].QueryRowCtx(ctx, &row, r.pkey(id), func(_ context.Context, _ sqlx.Conn, v any) error { return r.primaryQuery(id, v) })
+	}
 	err := r.ccs[r.cur].QueryRow(&row, r.pkey(id), func(_ sqlx.Conn, v any) error { return r.primaryQuery(id, v) })
 	return row, err
 }
 
 func (r *hRun) queryRowIndex(idx int) (hRow, error) {
 	var row hRow
+	if ctx := r.ctx; ctx != nil {
+		return row, r.ccs[r.cur].QueryRowIndexCtx(ctx, &row, r.ikey(idx),
+			func(primary any) string { return fmt.Sprintf("p%d:%v", r.c.Salt, primary) },
+			func(_ context.Context, _ sqlx.Conn, v any) (any, error) { return r.indexQuery(idx, v) },
+			func(_ context.Context, _ sqlx.Conn, v, primary any) error {
+				return r.primaryQuery(r.slotOf(fmt.Sprint(primary)), v)
+			})
+	}
 	err := r.ccs[r.cur].QueryRowIndex(&row, r.ikey(idx),
 		func(primary any) string { return fmt.Sprintf("p%d:%v", r.c.Salt, primary) },
 		func(_ sqlx.Conn, v any) (any, error) { return r.indexQuery(idx, v) },
@@ -668,7 +713,7 @@ func (r *hRun) doWrite(what string, o hOp, del bool) {
 		}
 	}
 	r.markInvalidated(keys)
-	_, err := r.ccs[r.cur].Exec(func(_ sqlx.Conn) (sql.Result, error) {
+	body := func(_ sqlx.Conn) (sql.Result, error) {
 		if o.During {
 			r.classes["read-during-exec"] = true
 			r.absorb(false, false) // keep the model in step with whatever Exec did before calling back
@@ -694,7 +739,13 @@ func (r *hRun) doWrite(what string, o hOp, del bool) {
 		}
 		r.mu.Unlock()
 		return nil, nil
-	}, keys...)
+	}
+	var err error
+	if ctx := r.ctx; ctx != nil {
+		_, err = r.ccs[r.cur].ExecCtx(ctx, func(_ context.Context, conn sqlx.Conn) (sql.Result, error) { return body(conn) }, keys...)
+	} else {
+		_, err = r.ccs[r.cur].Exec(body, keys...)
+	}
 	b, _ := r.absorb(false, false)
 	if err != nil {
 		r.failf("%s: Exec returned %v", what, err)
@@ -727,7 +778,12 @@ func (r *hRun) doDelCache(what string, o hOp) {
 		r.classes["skipped"] = true
 		return
 	}
-	err := r.ccs[r.cur].DelCache(keys...)
+	var err error
+	if ctx := r.ctx; ctx != nil {
+		err = r.ccs[r.cur].DelCacheCtx(ctx, keys...)
+	} else {
+		err = r.ccs[r.cur].DelCache(keys...)
+	}
 	b, _ := r.absorb(false, false)
 	if err != nil {
 		r.failf("%s: DelCache returned %v", what, err)
@@ -755,14 +811,22 @@ func (r *hRun) doSetCache(what string, o hOp) {
 				r.classes["skipped"] = true
 				continue
 			}
-			err = r.ccs[r.cur].SetCache(r.pkey(row.ID), row)
+			if ctx := r.ctx; ctx != nil {
+				err = r.ccs[r.cur].SetCacheCtx(ctx, r.pkey(row.ID), row)
+			} else {
+				err = r.ccs[r.cur].SetCache(r.pkey(row.ID), row)
+			}
 		case 'i':
 			row, ok := r.rowByIdx(n % c06NIdx)
 			if !ok {
 				r.classes["skipped"] = true
 				continue
 			}
-			err = r.ccs[r.cur].SetCache(r.ikey(row.Idx), r.pkValue(row.ID))
+			if ctx := r.ctx; ctx != nil {
+				err = r.ccs[r.cur].SetCacheCtx(ctx, r.ikey(row.Idx), r.pkValue(row.ID))
+			} else {
+				err = r.ccs[r.cur].SetCache(r.ikey(row.Idx), r.pkValue(row.ID))
+			}
 		default:
 			continue
 		}
@@ -1013,7 +1077,7 @@ func (r *hRun) doConc(what string, o hOp) {
 func c06HistInterp(t *testing.T, c hCase) (v kit.Verdict) {
 	r := &hRun{t: t, c: c, db: map[int]hRow{}, ph: map[string]int{}, cached: map[string]int{}, dirty: map[string]bool{},
 		keyNode: map[string]int{}, invalid: map[string]bool{}, priCalls: map[int]int{}, idxCalls: map[int]int{},
-		active: map[string]int{}, classes: map[string]bool{}}
+		active: map[string]int{}, classes: map[string]bool{}, opLimit: 2e9}
 	if c.PKKind == "" && len(c.PKs) == 0 {
 		c.PKs = []int64{0, 1, 2, 3, 4, 5}
 		r.c = c
@@ -1050,6 +1114,14 @@ func c06HistInterp(t *testing.T, c hCase) (v kit.Verdict) {
 		restore := cache.C06LocalWheel()
 		r.start = time.Now()
 		defer func() {
+			for _, cancel := range r.cancels {
+				cancel()
+			}
+			if c.Ctor == "ctype" {
+				// the cluster client reloads its slot table in a goroutine that
+				// ends with a 200 ms sleep
+				time.Sleep(time.Second)
+			}
 			kit.Wait()
 			restore()
 			kit.Wait()
@@ -1077,7 +1149,12 @@ func c06HistInterp(t *testing.T, c hCase) (v kit.Verdict) {
 					r.classes["defaults-after-earlier-instance-with-options"] = true
 				}
 			}
-			if n == 1 && c.Ctor == "node" {
+			if n == 1 && c.Ctor == "ctype" {
+				// cluster-type redis (go-redis ClusterClient against miniredis' CLUSTER SLOTS):
+				// node.DelCtx deletes key by key and retries each failed key on its own
+				r.ccs = append(r.ccs, sqlc.NewNodeConn(nil, redis.New(r.srvs[0].M.Addr(), redis.WithCluster()), opts...))
+				r.classes["redis-cluster-type"] = true
+			} else if n == 1 && c.Ctor == "node" {
 				r.ccs = append(r.ccs, sqlc.NewNodeConn(nil, redis.New(r.srvs[0].M.Addr()), opts...))
 			} else {
 				r.ccs = append(r.ccs, sqlc.NewConn(nil, conf, opts...))
@@ -1102,8 +1179,20 @@ func c06HistInterp(t *testing.T, c hCase) (v kit.Verdict) {
 				r.cur = o.In % len(r.ccs)
 			}
 			if o.K != "adv" && o.K != "fault" {
-				// an operation issues at most 2 failing commands per node
-				r.budget(func(int) int { return 2 })
+				// an operation issues at most 2 failing commands per node (cluster-type
+				// redis deletes key by key: up to 3 keys and the read inside Exec)
+				worst := 2
+				if c.Ctor == "ctype" {
+					worst = 4
+				}
+				r.budget(func(int) int { return worst })
+			}
+			after := r.withCtx("", false)
+			switch o.K {
+			case "read", "readidx":
+				after = r.withCtx(o.Cx, false)
+			case "write", "delrow", "delcache", "setcache":
+				after = r.withCtx(o.Cx, true)
 			}
 			switch o.K {
 			case "read":
@@ -1136,7 +1225,9 @@ func c06HistInterp(t *testing.T, c hCase) (v kit.Verdict) {
 					}
 				}
 			}
+			after()
 			r.stall()
+			r.ctx, r.opLimit = nil, 2e9
 			if r.fail != "" {
 				return
 			}
@@ -1216,7 +1307,7 @@ func c06HistGen(rt *rapid.T) hCase {
 	c := hCase{
 		Salt:   rapid.IntRange(0, 999).Draw(rt, "salt"),
 		OffMs:  rapid.IntRange(1, 998).Draw(rt, "off"),
-		Ctor:   rapid.SampledFrom([]string{"node", "conf"}).Draw(rt, "ctor"),
+		Ctor:   rapid.SampledFrom([]string{"node", "conf", "ctype"}).Draw(rt, "ctor"),
 	}
 	// primary key VALUES are part of the case: small, around 2^21 (where %v of a
 	// float64 switches to exponent form), around 2^53, near the int64 limits,
@@ -1306,6 +1397,10 @@ func c06HistGen(rt *rapid.T) hCase {
 		o := hOp{K: k}
 		if ni > 1 {
 			o.In = rapid.IntRange(0, ni-1).Draw(rt, "instance")
+		}
+		switch k {
+		case "read", "readidx", "write", "delrow", "delcache", "setcache", "idxstale":
+			o.Cx = rapid.SampledFrom([]string{"", "", "bg", "live", "cancel", "cancel", "dl"}).Draw(rt, "ctx")
 		}
 		switch k {
 		case "read":
@@ -1400,6 +1495,6 @@ func c06HistGen(rt *rapid.T) hCase {
 }
 
 func TestVerif_C06_history(t *testing.T) {
-	kit.Run(t, "C06", "history", kit.Opts{Quick: 3000, Thorough: 160000}, c06HistGen,
+	kit.Run(t, "C06", "history", kit.Opts{Quick: 2400, Thorough: 160000}, c06HistGen,
 		func(c hCase) kit.Verdict { return c06HistInterp(t, c) })
 }
